@@ -101,6 +101,17 @@ def build_alphabet(darsia):
             x = A(g, g - x, it)
         return x
 
+    def anderson_window(depth, restart, first, last, seed):
+        # calls number first..last-1 of a longer iteration, with prescribed (g_k, f_k); `first` is a restart boundary,
+        # so the result may depend on nothing before it
+        A = shared(f"AAW{depth}/{restart}", lambda: darsia.AndersonAcceleration(dimension=None, depth=depth, restart=restart))
+        r = np.random.default_rng(seed)
+        out = []
+        for it in range(first, last):
+            g, f = r.standard_normal(6), r.standard_normal(6)
+            out.append(A(g, f, it))
+        return np.concatenate(out)
+
     def wass(kind, pair, shape=(4, 5)):
         from vf.gen import wass as W
 
@@ -114,10 +125,17 @@ def build_alphabet(darsia):
             "bregman_amg": ("bregman", "pressure", "amg", 0),
             "adaptive_cg_aa": ("bregman_adaptive", "pressure", "cg", 2),
             "bregman_direct_aa": ("bregman", "pressure", "direct", 2),
+            "adaptive_homogeneous": ("bregman_adaptive", "pressure", "direct", 0),
+            "newton_aa_restart": ("newton", "full", "direct", 3),
         }[kind]
 
         def ctor():
-            opt = W.make_options(darsia, cfg[0], "RAVIART_THOMAS", "CELL_BASED", cfg[1], cfg[2], cfg[3], 5)
+            opt = W.make_options(darsia, cfg[0], "RAVIART_THOMAS", "CELL_BASED", cfg[1], cfg[2], cfg[3], 5 if kind != "adaptive_homogeneous" else 7)
+            if kind == "adaptive_homogeneous":
+                # one homogeneous penalty, adapted late in the run; the user-given L is far from the adapted value
+                opt.update({"bregman_homogeneous": True, "L": 10.0, "bregman_update": lambda it: it % 3 == 2})
+            if kind == "newton_aa_restart":
+                opt.update({"aa_restart": 2})
             return W.solver_class(darsia, cfg[0])(darsia.Grid(shape, [1.0, 0.75]), None, opt)
 
         # the grid (shape) is fixed per object; voxel sizes of the images must match the object
@@ -152,6 +170,14 @@ def build_alphabet(darsia):
         "tvd_chambolle": lambda: tvd(0.2, "chambolle"),
         "tvd_het": lambda: tvd(0.3, "heterogeneous bregman"),
         "aa_seq1": lambda: anderson(1, 8),
+        "aa_d2r3_head": lambda: anderson_window(2, 3, 0, 3, 11),
+        "aa_d2r3_tail": lambda: anderson_window(2, 3, 3, 6, 12),
+        "aa_d3r2_head": lambda: anderson_window(3, 2, 0, 2, 13),
+        "aa_d3r2_tail": lambda: anderson_window(3, 2, 2, 4, 14),
+        "w_adaptive_homog_A": lambda: wass("adaptive_homogeneous", 0),
+        "w_adaptive_homog_B": lambda: wass("adaptive_homogeneous", 1),
+        "w_newton_aa_restart_A": lambda: wass("newton_aa_restart", 0),
+        "w_newton_aa_restart_B": lambda: wass("newton_aa_restart", 1),
         "aa_seq2": lambda: anderson(2, 5),
         "w_newton_A": lambda: wass("newton_direct", 0),
         "w_newton_B": lambda: wass("newton_direct", 1),
@@ -178,6 +204,7 @@ LETTERS = [
     "h1_explicit_mu10", "h1_explicit_mu1", "h1_mg_mu1", "h1_mg_mu5", "sb_mu05", "sb_mu2_ell1", "sb_shapeB", "sb_explicit", "tvd_chambolle",
     "tvd_het", "aa_seq1", "aa_seq2", "w_newton_A", "w_newton_B", "w_newton_amg_aa_A", "w_newton_amg_aa_B", "w_bregman_A", "w_bregman_B",
     "w_bregman_amg_A", "w_bregman_amg_B", "w_adaptive_A", "w_adaptive_B", "w_bregman_aa_A", "w_bregman_aa_B", "h1_mgarr_A", "h1_mgarr_B", "mg_upd_A", "mg_upd_B",
+    "aa_d2r3_head", "aa_d2r3_tail", "aa_d3r2_head", "aa_d3r2_tail", "w_adaptive_homog_A", "w_adaptive_homog_B", "w_newton_aa_restart_A", "w_newton_aa_restart_B",
 ]
 # letters that can share state with each other (same object or same module-level default)
 GROUPS = {
@@ -198,6 +225,10 @@ GROUPS = {
     "w_bregman_aa": ["w_bregman_aa_A", "w_bregman_aa_B"],
     "h1_mg_arrays": ["h1_mgarr_A", "h1_mgarr_B"],
     "mg_update_arrays": ["mg_upd_A", "mg_upd_B"],
+    "anderson_boundary_d2r3": ["aa_d2r3_head", "aa_d2r3_tail"],
+    "anderson_boundary_d3r2": ["aa_d3r2_head", "aa_d3r2_tail"],
+    "w_adaptive_homogeneous": ["w_adaptive_homog_A", "w_adaptive_homog_B"],
+    "w_newton_aa_restart": ["w_newton_aa_restart_A", "w_newton_aa_restart_B"],
 }
 
 
